@@ -68,8 +68,9 @@ pub fn gen_plan(seed: u64, run: u64, tier: &str) -> Plan {
     cfg.qc_cap = *rng.pick(&[1usize, 2, 5, 50]);
     cfg.qc_threshold_milli = *rng.pick(&[1000u32, 1000, 1000, 950]);
     cfg.hot_hard = *rng.pick(&[2usize, 5, 200]);
-    cfg.hot_timeout_ms = Some(*rng.pick(&[0u64, 50, 50, 10_000]));
-    cfg.cold_timeout_ms = Some(*rng.pick(&[0u64, 1000, 1000, 10_000]));
+    // no 0 ms timeouts: expiry would race with tokio's blocking pool, which the simulator does not schedule
+    cfg.hot_timeout_ms = Some(*rng.pick(&[50u64, 50, 10_000]));
+    cfg.cold_timeout_ms = Some(*rng.pick(&[1000u64, 1000, 10_000]));
     cfg.max_conc = Some(*rng.pick(&[0usize, 1, 1000, 1000]));
     cfg.snap_interval = 1000;
     let universe = rng.range(2, if tier == "thorough" { 40 } else { 14 });
@@ -344,6 +345,7 @@ fn execute_inner(plan: &Plan) -> Exec {
                         let eng = std::sync::Arc::clone(&b.engine);
                         let qq = qf.clone();
                         let (kk2, sc) = (*kk, *scope);
+                        let _fz = simlibc::FreezeClock::new();
                         match rt.block_on(async move { eng.knn_search_with_timeouts_with_ef_scoped(&qq, kk2, None, sc).await }) {
                             Ok((r, p)) => responses.push((to_pairs(r), Some(p), qf.clone())),
                             Err(e) => failed = Some(format!("{:#}", e)),
